@@ -46,6 +46,13 @@ const Prelude = `(set-option :produce-models true)
 (assert (forall ((s Str)) (! (= (strdecode (strcode s)) s) :pattern ((strcode s)))))
 (assert (forall ((e (Array Loc Int)) (l Loc) (n Int)) (! (=> (>= n 0) (= (slen (strOf e l n)) n)) :pattern ((strOf e l n)))))
 (assert (forall ((s Str) (lo Int) (hi Int)) (! (=> (and (<= 0 lo) (<= lo hi) (<= hi (slen s))) (= (slen (str.sub s lo hi)) (- hi lo))) :pattern ((str.sub s lo hi)))))
+; element location used inside quantified contract clauses (keeps arithmetic out of the triggers)
+(declare-fun elt (Slice Int) Loc)
+(assert (forall ((s Slice) (i Int)) (! (= (elt s i) (mk-loc (l-ref (s-loc s)) (+ (l-idx (s-loc s)) i))) :pattern ((elt s i)))))
+; errors.Is(err, target) as a relation on interface values (facts added where the wrapping structure is known)
+(declare-fun errIs (Iface Iface) Bool)
+(assert (forall ((x Iface)) (! (=> (not (= x (mk-if 0 (mk-loc 0 0)))) (errIs x x)) :pattern ((errIs x x)))))
+(assert (forall ((t Iface)) (! (= (errIs (mk-if 0 (mk-loc 0 0)) t) (= t (mk-if 0 (mk-loc 0 0)))) :pattern ((errIs (mk-if 0 (mk-loc 0 0)) t)))))
 ; streams, map order, bit operations (uninterpreted unless a theory file says more)
 (declare-fun sid (Iface) Int)
 (declare-fun rootid (Int) Int)
@@ -178,7 +185,11 @@ func (e *Engine) BuildQuery(o *Obligation, decls string) string {
 	if o.Reach != "true" {
 		sb.WriteString("(assert " + o.Reach + ")\n")
 	}
-	sb.WriteString("(assert (not " + goal + "))\n")
+	skDecls, skBody := skolemizeGoal(goal)
+	for _, d := range skDecls {
+		sb.WriteString(d + "\n")
+	}
+	sb.WriteString("(assert (not " + skBody + "))\n")
 	sb.WriteString("(check-sat)\n(get-model)\n")
 	return sb.String()
 }
@@ -259,3 +270,121 @@ func SaveQuery(dir string, o *Obligation) string {
 }
 
 var _ = spec.ParseExpr
+
+// skolemizeGoal turns universal quantifiers in positive position at the top of a goal
+// (under and / the consequent of =>) into fresh constants: the goal is negated in the query, so
+// this is ordinary skolemisation done syntactically, which lets the solvers see the ground terms.
+func skolemizeGoal(goal string) (decls []string, out string) {
+	n := 0
+	var walk func(g string) string
+	walk = func(g string) string {
+		g = strings.TrimSpace(g)
+		kids, ok := sexpKids(g)
+		if !ok || len(kids) == 0 {
+			return g
+		}
+		switch kids[0] {
+		case "forall":
+			if len(kids) != 3 {
+				return g
+			}
+			binders, ok := sexpKids(kids[1])
+			if !ok {
+				return g
+			}
+			body := kids[2]
+			// strip an annotation (! body :pattern ...)
+			if bk, ok := sexpKids(body); ok && len(bk) >= 2 && bk[0] == "!" {
+				body = bk[1]
+			}
+			for _, b := range binders {
+				bk, ok := sexpKids(b)
+				if !ok || len(bk) != 2 {
+					return g
+				}
+				n++
+				nm := fmt.Sprintf("sk!%d!%s", n, strings.Trim(bk[0], "|"))
+				decls = append(decls, fmt.Sprintf("(declare-const |%s| %s)", nm, bk[1]))
+				body = fmt.Sprintf("(let ((%s |%s|)) %s)", bk[0], nm, body)
+			}
+			return walk2(body, walk)
+		case "and":
+			for i := 1; i < len(kids); i++ {
+				kids[i] = walk(kids[i])
+			}
+			return "(" + strings.Join(kids, " ") + ")"
+		case "=>":
+			if len(kids) == 3 {
+				return "(=> " + kids[1] + " " + walk(kids[2]) + ")"
+			}
+		}
+		return g
+	}
+	out = walk(goal)
+	return decls, out
+}
+
+// walk2 continues skolemisation below the let bindings introduced for skolem constants.
+func walk2(g string, walk func(string) string) string {
+	kids, ok := sexpKids(g)
+	if ok && len(kids) == 3 && kids[0] == "let" {
+		return "(let " + kids[1] + " " + walk2(kids[2], walk) + ")"
+	}
+	return walk(g)
+}
+
+// sexpKids splits a parenthesised s-expression into its direct children.
+func sexpKids(g string) ([]string, bool) {
+	g = strings.TrimSpace(g)
+	if len(g) < 2 || g[0] != '(' || g[len(g)-1] != ')' {
+		return nil, false
+	}
+	var kids []string
+	depth, start, bar := 0, -1, false
+	for i := 1; i < len(g)-1; i++ {
+		c := g[i]
+		if bar {
+			if c == '|' {
+				bar = false
+			}
+			continue
+		}
+		switch c {
+		case '|':
+			bar = true
+			if depth == 0 && start < 0 {
+				start = i
+			}
+		case '(':
+			if depth == 0 && start < 0 {
+				start = i
+			}
+			depth++
+		case ')':
+			depth--
+			if depth < 0 {
+				return nil, false
+			}
+			if depth == 0 && start >= 0 {
+				kids = append(kids, g[start:i+1])
+				start = -1
+			}
+		case ' ', '\t', '\n':
+			if depth == 0 && start >= 0 {
+				kids = append(kids, g[start:i])
+				start = -1
+			}
+		default:
+			if depth == 0 && start < 0 {
+				start = i
+			}
+		}
+	}
+	if depth != 0 || bar {
+		return nil, false
+	}
+	if start >= 0 {
+		kids = append(kids, g[start:len(g)-1])
+	}
+	return kids, true
+}
